@@ -392,7 +392,8 @@ func (r *Run) havocMapContents(st *State, ownerT types.Type, owner string, base 
 			val Val
 		}
 		var keep []kept
-		if eg := e.entryGuard(owner, fname); eg != "" {
+		if eg := e.entryGuard(owner, fname); eg != "" && !r.effectHavoc {
+			// (interference by other threads only: a callee of this thread may itself change the entries it is entitled to)
 			for _, l := range st.Locks {
 				if l.Class == eg && l.Base.So == ml.ksort {
 					keep = append(keep, kept{l.Base, e.mapHas(st, ml, m, l.Base), e.mapVal(st, ml, m, l.Base)})
@@ -866,7 +867,9 @@ func (r *Run) interference(st *State, fn *ssa.Function, recv T, lock string) {
 
 func (r *Run) havocGuarded(st *State, fn *ssa.Function, recv T, lock string) {
 	owner := r.e.structKey(fn.Signature.Recv().Type())
+	r.effectHavoc = true // the effects of a callee running in this thread, not interference
 	r.havocGuardedOf(st, owner, lock, recv)
+	r.effectHavoc = false
 	r.assumeInvariants(st, owner, lock, recv)
 }
 
